@@ -638,10 +638,12 @@ func (r *reader) read(src []byte) {
 			r.mode = valueMode
 		case pipeDone:
 			var obj Object
+			// Symbol names are case insensitive, the name is kept in
+			// lower case just as for a token without bars.
 			if 0 < len(r.buf) {
-				obj = Symbol(r.buf)
+				obj = Symbol(bytes.ToLower(r.buf))
 			} else {
-				obj = Symbol(src[r.tokenStart:r.pos])
+				obj = Symbol(bytes.ToLower(src[r.tokenStart:r.pos]))
 			}
 			r.push(obj)
 			r.mode = valueMode
